@@ -10,10 +10,10 @@ EXTENDS Rounding, Tables
 
 \* per-format constants of num.rs used here
 MinimumExponent(F) == -Bias(F)                 \* MINIMUM_EXPONENT (-1023 / -127)
-Smallest10(F) == IF F = F64 THEN -342 ELSE IF F = F32 THEN -65 ELSE IF F = BF16 THEN -65 ELSE -29
-Largest10(F)  == IF F = F64 THEN 308 ELSE IF F = F32 THEN 38 ELSE IF F = BF16 THEN 38 ELSE 9
-TieMin(F)     == IF F = F64 THEN -4 ELSE IF F = F32 THEN -17 ELSE IF F = BF16 THEN -24 ELSE -25
-TieMax(F)     == IF F = F64 THEN 23 ELSE IF F = F32 THEN 10 ELSE IF F = BF16 THEN 3 ELSE 2
+Smallest10(F) == Consts(F).small10
+Largest10(F)  == Consts(F).large10
+TieMin(F)     == Consts(F).tiemin
+TieMax(F)     == Consts(F).tiemax
 
 \* power(q) = ((q * 217706) >> 16) + 63, wrapping multiply; |q| <= 342 here
 Power(q) == ((q * 217706) \div 65536) + 63
